@@ -30,7 +30,7 @@ import (
 func init() {
 	hx.Register(&hx.Prop{
 		ID: "C05",
-		Rule: "exhaustive: the 17 legal (in, style, explode) cells × parameter names (plain and with regex/URL/header/cookie metacharacters: $filter, a.b, x+y, n|m, q*, u[x], k(1)) × {integer, int32, number, boolean, string, array of each, flat object, deepObject with primitive, array-valued and nested-object properties (all subsets of well-formed keys)} × " +
+		Rule: "exhaustive: the 17 legal (in, style, explode) cells × parameter names (plain and with regex/URL/header/cookie metacharacters: $filter, a.b, x+y, n|m, q*, u[x], k(1)) × {integer, int32, number, boolean, string, array of each, flat object, deepObject with primitive, array-valued and nested-object properties (all subsets of well-formed keys), deepObject at every depth (three schemas of depth 4–5: objects in objects, arrays of objects, arrays of arrays, nested free-form maps × random subsets of their well-formed leaves with well- and ill-typed texts × a key soup of depth 1–5)} × " +
 			"value sets (sizes 0–3, negative numbers, dots, delimiters inside strings, strings starting with letters of the parameter name, key orders) × absent/empty/present × required × allowEmptyValue × constraint variants (min/max, enum, minItems, required properties), " +
 			"each serialised by an independent Go implementation of the OpenAPI style table (the driver re-encodes and must agree); allOf/anyOf/oneOf over pairs of leaf schemas × raw texts and × array/object values serialised for the cell (deepObject included); absence with and without other path/query parameters; " +
 			"plus a seeded stream of malformed / free carrier texts assembled from delimiters, prefixes and primitive tokens (incl. non-decimal integers, odd pair counts, wrong prefixes). " +
@@ -166,8 +166,38 @@ func c05Leaf(m map[string]any) *openapi3.Schema {
 	}
 }
 
+// c05Nest builds a nested property schema (kind prim | arr{items} | obj{props, required, addl}) of any depth.
+func c05Nest(m map[string]any) *openapi3.Schema {
+	switch jstr(m, "k") {
+	case "arr":
+		it, _ := m["items"].(map[string]any)
+		return &openapi3.Schema{Type: &openapi3.Types{"array"}, Items: c05Nest(it).NewRef()}
+	case "obj", "nest":
+		s := &openapi3.Schema{Type: &openapi3.Types{"object"}, Properties: openapi3.Schemas{}}
+		for _, kv := range jlist(m["props"]) {
+			p := jlist(kv)
+			if len(p) != 2 {
+				continue
+			}
+			k, _ := p[0].(string)
+			pm, _ := p[1].(map[string]any)
+			s.Properties[k] = c05Nest(pm).NewRef()
+		}
+		s.Required = toStrs(m["required"])
+		if am, ok := m["addl"].(map[string]any); ok {
+			s.AdditionalProperties = openapi3.AdditionalProperties{Schema: c05Nest(am).NewRef()}
+		}
+		return s
+	default:
+		return c05Prim(m)
+	}
+}
+
 func c05Schema(m map[string]any) *openapi3.Schema {
 	k := jstr(m, "k")
+	if k == "nest" {
+		return c05Nest(m)
+	}
 	if k == "allOf" || k == "anyOf" || k == "oneOf" {
 		s := &openapi3.Schema{}
 		var refs openapi3.SchemaRefs
@@ -1117,6 +1147,100 @@ func genC05(ctx *hx.Ctx, emit0 func(hx.Case)) {
 			q = append(q, []any{key, vals})
 		}
 		emit(c05Case(deepCl, name, hx.Pick(r, deepSchemas), map[string]any{"query": q}, r.Chance(40), false))
+	}
+	// ---- D3. deepObject at every depth: objects in objects, arrays of objects, arrays of arrays, nested free-form maps
+	nObj := func(req []any, addl any, kv ...any) map[string]any {
+		props := []any{}
+		for i := 0; i+1 < len(kv); i += 2 {
+			props = append(props, []any{kv[i], kv[i+1]})
+		}
+		return map[string]any{"k": "obj", "props": props, "required": req, "addl": addl}
+	}
+	nArr := func(items map[string]any) map[string]any { return map[string]any{"k": "arr", "items": items} }
+	asNest := func(m map[string]any) map[string]any { return c05With(m, "k", "nest") }
+	inner := nObj([]any{}, nil, "z", c05PS("string"), "w", nArr(c05PS("integer")), "r", nObj([]any{"u"}, nil, "u", c05PS("boolean")))
+	nest1 := asNest(nObj([]any{}, nil, "a", c05PS("integer"), "o", nObj([]any{}, nil, "x", c05With(c05PS("integer"), "max", 6), "q", inner),
+		"l", nArr(nObj([]any{}, nil, "k", c05PS("integer"), "s", c05PS("string"))), "m", nArr(nArr(c05PS("integer"))),
+		"t", nObj([]any{}, c05PS("number"))))
+	nest2 := asNest(nObj([]any{"o"}, nObj([]any{}, nil, "v", c05PS("integer")), "o", nObj([]any{"q"}, c05PS("string"), "q", inner)))
+	nest3 := asNest(nObj([]any{}, nArr(c05PS("int32")), "a", c05PS("boolean"), "l", nArr(nArr(nObj([]any{}, nil, "k", c05PS("number"))))))
+	nestSchemas := []map[string]any{nest1, nest2, nest3}
+	// well-formed leaves per schema: key suffix -> texts (first = well typed)
+	nestLeaves := [][]dk{
+		{{"[a]", []string{"7", "x"}}, {"[o][x]", []string{"5", "9", "z"}}, {"[o][q][z]", []string{"dave", ""}}, {"[o][q][w][0]", []string{"1"}},
+			{"[o][q][w][1]", []string{"2", "q"}}, {"[o][q][r][u]", []string{"true", "no"}}, {"[l][0][k]", []string{"3"}}, {"[l][1][s]", []string{"v"}},
+			{"[l][1][k]", []string{"4", "k"}}, {"[m][0][0]", []string{"1"}}, {"[m][0][1]", []string{"2"}}, {"[m][1][0]", []string{"3", "x"}},
+			{"[t][any]", []string{"1.5", "n"}}, {"[t][b]", []string{"2"}}, {"[zz][y]", []string{"1"}}},
+		{{"[o][q][z]", []string{"dave"}}, {"[o][q][w][0]", []string{"1", "w"}}, {"[o][q][r][u]", []string{"false"}}, {"[o][free]", []string{"s"}},
+			{"[e1][v]", []string{"5", "x"}}, {"[e2][v]", []string{"6"}}, {"[e2][zz]", []string{"1"}}, {"[o][q][r][zz]", []string{"1"}}},
+		{{"[a]", []string{"true", "1x"}}, {"[l][0][0][k]", []string{"1.5", "k"}}, {"[l][0][1][k]", []string{"2"}}, {"[l][1][0][k]", []string{"3"}},
+			{"[n1][0]", []string{"4", "2147483648"}}, {"[n1][1]", []string{"5"}}, {"[n2][0]", []string{"6"}}},
+	}
+	for si, sch := range nestSchemas {
+		parts := nestLeaves[si]
+		for ni, name := range allNames {
+			if ni >= 2 && ni%3 != si%3 {
+				continue
+			}
+			nSub := 300
+			if ctx.Thorough() {
+				nSub = 4000
+			}
+			for i := 0; i < nSub; i++ {
+				q := []any{}
+				for bi, part := range parts {
+					if !r.Chance(35) {
+						continue
+					}
+					v := part.vals[0]
+					if r.Chance(15) {
+						v = part.vals[(i+bi)%len(part.vals)]
+					}
+					q = append(q, []any{name + part.key, []any{v}})
+				}
+				if len(q) == 0 {
+					continue
+				}
+				emit(c05Case(deepCl, name, sch, map[string]any{"query": q}, i%3 == 0, false))
+			}
+			for mode := 0; mode < 3; mode++ {
+				for _, req := range bools {
+					emit(c05Case(deepCl, name, sch, c05AbsentCar(deepCl, name, mode), req, false))
+				}
+			}
+		}
+	}
+	// random key soup of depth 1–5 over the segment vocabulary of the nested schemas: clashes, scalars for maps, maps for scalars,
+	// holes, foreign keys, junk after the brackets
+	nSegs := []string{"a", "o", "x", "q", "z", "w", "r", "u", "l", "m", "k", "s", "t", "v", "e1", "n1", "0", "1", "2", "zz", "any"}
+	nSoup := 4000
+	if ctx.Thorough() {
+		nSoup = 80000
+	}
+	for i := 0; i < nSoup; i++ {
+		name := hx.Pick(r, allNames)
+		sch := hx.Pick(r, nestSchemas)
+		q := []any{}
+		seen := map[string]bool{}
+		for j, k := 0, 1+r.Intn(5); j < k; j++ {
+			key := name
+			for d, dn := 0, 1+r.Intn(5); d < dn; d++ {
+				key += "[" + hx.Pick(r, nSegs) + "]"
+			}
+			if r.Chance(4) {
+				key += hx.Pick(r, []string{"zz", "[", "]"})
+			}
+			if seen[key] {
+				continue
+			}
+			seen[key] = true
+			vals := []any{hx.Pick(r, deepVals)}
+			if r.Chance(4) {
+				vals = append(vals, hx.Pick(r, deepVals))
+			}
+			q = append(q, []any{key, vals})
+		}
+		emit(c05Case(deepCl, name, sch, map[string]any{"query": q}, r.Chance(40), false))
 	}
 	// ---- E. compositions over pairs of leaf schemas
 	leaves := []map[string]any{c05PS("integer"), c05PS("string"), c05PS("boolean"), c05With(c05PS("integer"), "max", 6), c05PS("number"),
